@@ -92,7 +92,7 @@ func (e *Exec) runOthersUntilRunnable(th *Thread) bool {
 		}
 		progressed := false
 		for _, o := range e.threads {
-			if o == th || o.State == TDone {
+			if o == th || o.State == TDone || o.busy {
 				continue
 			}
 			if e.tryProgress(o) {
@@ -109,10 +109,16 @@ func (e *Exec) runOthersUntilRunnable(th *Thread) bool {
 
 // quiesce runs every thread other than the current one until all are blocked or done.
 func (e *Exec) quiesce() {
+	// the calling thread is in the middle of an instruction (an engine intrinsic): nobody may step it meanwhile,
+	// not even a nested quiesce started by another thread
+	self := e.cur
+	wasBusy := self.busy
+	self.busy = true
+	defer func() { self.busy = wasBusy; e.cur = self }()
 	for round := 0; round < 10000; round++ {
 		progressed := false
 		for _, o := range e.threads {
-			if o == e.cur || o.State == TDone {
+			if o == self || o.State == TDone || o.busy {
 				continue
 			}
 			if e.tryProgress(o) {
